@@ -35,8 +35,14 @@ class FileProxy:
             self.pre[path] = v
 
     def __contains__(self, path):
+        # a group exists if something is stored below it (or it was created empty: its own pre-state choice)
+        if any(q.startswith(path + "/") and v is not ABSENT for q, v in self.map.items()):
+            self.map.setdefault(path, ("group", path))
+            self.pre.setdefault(path, self.map[path])
+            if self.map[path] is ABSENT:
+                self.map[path] = ("group", path)
+            return True
         self._touch(path)
-        # a group exists iff something is stored below it
         return self.map[path] is not ABSENT
 
     def __delitem__(self, path):
@@ -103,6 +109,8 @@ def u_write_dict(ctx):
                     d[key] = {"a": inner, "b": None}
                     expect[g + key + "/a"] = inner
                     expect[g + key + "/b"] = ABSENT
+                    fp._touch(g + key + "/zz")          # an entry of a dictionary written earlier under this name
+                    expect[g + key + "/zz"] = ABSENT
             fp._touch("grp/other")                   # a path outside the dictionary
             f(fp, g, d, True)
             for path, want in expect.items():
